@@ -367,10 +367,20 @@ func ShortFn(key string) string {
 // ReturnsNilError reports whether a return event returns the literal nil in its
 // last (error) position; ok is false when there are no results.
 func ReturnsNilLast(info *types.Info, e Event) (isNil bool, ok bool) {
-	if e.Kind != EvReturn || len(e.Rhs) == 0 {
+	res := e.Results()
+	if e.Kind != EvReturn || len(res) == 0 {
 		return false, false
 	}
-	return ValueKey(info, e.Rhs[len(e.Rhs)-1]) == "nil", true
+	return ValueKey(info, res[len(res)-1]) == "nil", true
+}
+
+// Results gives what a return (or assignment) event yields: the expressions as written, or, when the
+// single expression is a call whose body the path engine spliced in, what that callee returned on this path.
+func (e Event) Results() []ast.Expr {
+	if e.Vals != nil {
+		return e.Vals
+	}
+	return e.Rhs
 }
 
 // LostAfterNonNil: after the path established that the bound error variable is non-nil
